@@ -975,11 +975,13 @@ fn do_send(w: &mut World, st: &mut St, n: usize, si: usize, tape: &mut Tape) -> 
             let so = w.nodes[n].sockets.get_mut::<udp::Socket>(s.h);
             let ep = IpEndpoint { addr: to_smol(&dst), port: dport };
             let q_before = so.send_queue();
-            let how = tape.draw(3);
+            let how = tape.draw(4);
+            // send_with may be given room for more than the closure ends up writing
+            let slack = if how == 3 { 1 + tape.draw(64) as usize } else { 0 };
             let r: Result<(), udp::SendError> = guard("udp::send", || match how {
                 0 => so.send_slice(&payload, ep),
                 1 => so.send(size, ep).map(|b| b.copy_from_slice(&payload)),
-                _ => so.send_with(size, ep, |b| {
+                _ => so.send_with(size + slack, ep, |b| {
                     b[..size].copy_from_slice(&payload);
                     size
                 }).map(|_| ()),
@@ -1017,7 +1019,15 @@ fn do_send(w: &mut World, st: &mut St, n: usize, si: usize, tape: &mut Tape) -> 
             let rest = [(ident >> 8) as u8, ident as u8, (seqno >> 8) as u8, seqno as u8];
             let msg = if v6 { enc_icmp(true, &src, &dst, 128, 0, rest, &data) } else { enc_icmp(false, &src, &dst, 8, 0, rest, &data) };
             let so = w.nodes[n].sockets.get_mut::<icmp::Socket>(s.h);
-            let r = guard("icmp::send_slice", || so.send_slice(&msg, to_smol(&dst)))?;
+            let how = tape.draw(3);
+            let slack = if how == 2 { 1 + tape.draw(32) as usize } else { 0 };
+            let r = guard("icmp::send", || match how {
+                0 => so.send_slice(&msg, to_smol(&dst)),
+                _ => so.send_with(msg.len() + slack, to_smol(&dst), |b| {
+                    b[..msg.len()].copy_from_slice(&msg);
+                    msg.len()
+                }).map(|_| ()),
+            })?;
             match r {
                 Ok(()) => {
                     s.next_seq += 1;
